@@ -35,3 +35,29 @@ L("rp_complete", props=["C04"], functions="ReplayProtection::already_received",
 L("rp_old", props=["C04"], functions="ReplayProtection::already_received", claim="sequences 256 or more behind are rejected", bound="sequences < 2^63", **RP)
 L("rp_init", props=["C04"], functions="ReplayProtection::new", claim="constructor state satisfies Inv_RP and admits everything", bound="none", **RP)
 L("rp_witness", props=["C04", "C07"], expect="fail", functions="-", claim="vacuity witness", **RP)
+
+# --------------------------------------------------------------------------------------------
+# renetcode: packet decode / encode  (C04, C07, C13, C16, C17, C19)
+PK = dict(crate="renetcode", file="packet.rs", variant={"fs": 512}, stubs="chacha20poly1305 primitive -> models/chacha.rs (identity cipher, recorded calls)")
+L("dec_total", props=["C07", "C19"], functions="Packet::decode, read_sequence, decode_prefix, Packet::read, crypto::dencrypted_in_place, ReplayProtection::*",
+  claim="decode returns normally for every datagram; request only from >=1078 B, response only from >=325 B",
+  bound="all datagrams of every length 0..=1400 (all bytes symbolic), AEAD verdict nondeterministic", **PK)
+L("dec_binding", props=["C04", "C17"], functions="Packet::decode, crypto::dencrypted_in_place, get_additional_data",
+  claim="AEAD is called with (key arg, nonce=LE(seq bytes), aad=VERSION|pid|prefix, ct=bytes after header, tag=last 16 B): parsing is injective into the AEAD tuple",
+  bound="all datagrams 0..=1400 B; ciphertext and tag witnessed at one symbolic offset each", **PK)
+L("dec_window_order", props=["C04", "C07"], functions="Packet::decode, ReplayProtection::*",
+  claim="window-rejected sequences never reach the AEAD; AEAD Err => window unchanged; AEAD Ok => exactly this sequence recorded (protected kinds only)",
+  bound="all datagrams 0..=64 B (window logic is independent of body size), arbitrary window contents, sequences < 2^63, one witnessed window slot", **PK)
+L("dec_witness", props=["C04", "C07", "C17", "C19"], expect="fail", functions="-", claim="vacuity witness", **PK)
+for k in ("denied", "disconnect", "keepalive", "challenge", "response", "payload_a", "payload_b", "payload_c", "payload_max0", "payload_max8", "payload_over", "request"):
+    L("enc_len_" + k, props=["C13", "C17", "C19"], functions="Packet::encode, write_sequence, encode_prefix, crypto::encrypt_in_place",
+      claim="encode(%s) = 1+seqlen+body+16 bytes <= 1400, sealed under the given key with nonce=sequence and aad=VERSION|pid|prefix" % k,
+      bound=("all u64 sequences, all keys/protocol ids/fields" if k in ("denied", "disconnect", "keepalive") else "17 class-boundary sequences (0,1,255,256,...,2^64-1: concrete offsets), all keys/protocol ids/token bytes") + {"payload_a": "; every payload length 0..=64 (128 B buffer)", "payload_b": "; every payload length 0..=64 (128 B buffer)", "payload_c": "; every payload length 0..=64 (128 B buffer)", "payload_max0": "; payload 0..=1300 into 1400 B, sequence 0, length formula only", "payload_max8": "; payload 0..=1300 into 1400 B, sequence 2^64-1, length formula only", "payload_over": "; payload 0..=1400, sequence 2^64-1"}.get(k, ""), **PK)
+for k in ("denied", "disconnect", "keepalive", "challenge_a", "challenge_b", "challenge_c", "response_a", "response_b", "response_c", "payload_s0", "payload_s1", "payload_s4", "payload_s8", "payload_sizes", "request"):
+    L("rt_nc_" + k, props=["C16"], functions="Packet::encode, Packet::decode, Packet::write, Packet::read",
+      tier="thorough" if k in ("payload_s1", "payload_s4", "payload_sizes", "challenge_b", "response_b") else "quick", timeout=900 if k == "payload_sizes" else 400,
+      claim="decode(encode(p)) == (sequence, p) for kind %s" % k.split("_")[0],
+      bound=("all u64 sequences" if k in ("denied", "disconnect", "keepalive") else "class-boundary sequences (17 values, split over instances)") + ", all field values; arrays witnessed at one symbolic offset; payload lengths 0..=64; identity AEAD", **PK)
+L("rt_challenge_token", props=["C16", "C05"], functions="Packet::generate_challenge, ChallengeToken::{write, read, decode}",
+  claim="challenge token seals exactly (client id, user data) under the challenge key / sequence and decodes to them", bound="all ids, user data witnessed at one offset", **PK)
+L("enc_witness", props=["C13", "C16"], expect="fail", functions="-", claim="vacuity witness", **PK)
